@@ -61,6 +61,13 @@ def lex_doc(r, size, bad):
             out += ('/* ' + r.choice(['é', 'a', '*', '日']) * r.randrange(1, 900) + ' */').encode()
         elif bad and k < 0.073:
             out += r.choice(BADBYTES) if r.random() < 0.5 else r.choice(BADLEX).encode()
+        elif k < 0.1:
+            # comments are scanned (and validated) like everything else: line and block comments, with non-ASCII text, sometimes unterminated
+            body = ''.join(r.choice(['a', ' ', 'é', '日', '/', '*', '"', "\\"]) for _ in range(r.choice([0, 3, 30, 300, 1100]))).encode()
+            if bad and r.random() < 0.5:
+                i = r.randrange(0, len(body) + 1)
+                body = body[:i] + r.choice(BADBYTES) + body[i:]
+            out += (b'//' + body.replace(b'\n', b' ') + (b'\n' if r.random() < 0.9 else b'')) if r.random() < 0.6 else (b'/*' + body.replace(b'*/', b'* ') + b'*/')
         else:
             out += r.choice(GOODLEX).encode()
         if r.random() < 0.6:
@@ -77,6 +84,11 @@ def token_cases(ctx, docs):
     for i in range(30 if quick else 500):
         size = r.choice([5, 40, 300, 1000, 1024, 1030, 2047, 2100, 3080])
         srcs.append(lex_doc(r, size, bad=(i % 4 == 3)))
+    # an invalid byte inside a comment, the comment placed before, across and after the first buffer boundary
+    for badb in BADBYTES:
+        for pad in (0, 990, 1019, 1030):
+            for cm in (b'// caf' + badb + b' x\n', b'/* caf' + badb + b' x */', b'//' + badb + b'\n', b'// ok\n//' + b'y' * 40 + badb):
+                srcs.append(b' ' * pad + b'permit(principal,action,resource);' + cm + b'forbid(principal,action,resource);')
     for doc in srcs:
         L = len(doc)
         scheds = [[], [(1, 0)] * (L + 2), [(r.choice([0, 1, 2, 3, 5, 7]), 0) for _ in range(60)], [(r.choice([1020, 1021, 1022, 1023, 1024, 4000, 0]), 0) for _ in range(8)],
